@@ -199,6 +199,25 @@ def run(ck):
     alloc_err_sweep(ck, cg, [x for x in roots if x in cg.bodies], floor=4,
                     scope_pred=lambda p: "schema_json" in p or "::schema::" in p)
 
+    # length prefixes: what is announced is the number of items / BYTES that follow (`len()` of the very collection or
+    # string that is written next), never a character count or another derived number
+    nlp = 0
+    for p in sorted(c.paths()):
+        if "schema_json" not in p:
+            continue
+        for b in c.get_all(p):
+            f = Fn(b)
+            for k, (bi, t) in enumerate(f.calls(r"write_bytes_for_length_of_size$")):
+                o = f.origins(t["args"][0], deep=True)
+                lens = [a for a in o if a[0] == "call" and re.search(r"::len$", a[1])]
+                other = [a[1].split("::")[-1] for a in o if a[0] == "call" and re.search(r"Iterator::(count|sum|fold|max|min)$|::chars$|char_indices$|::(checked_)?(add|sub|mul|div)$", a[1])] + \
+                        [a[1] for a in o if a[0] == "bin"]
+                nlp += 1
+                ck.ob("DEFUSE", p, "length-prefix-is-len#%d" % k, len(lens) >= 1 and not other,
+                      "the announced length is len() of the data that follows" if lens and not other else
+                      "the announced length is computed with %s instead of the byte/element length of what is written next" % (other or "something other than len()"), f.loc(bi))
+    ck.floor("DEFUSE", "length prefixes written by the JSON->bytes direction", nlp, 7)
+
     # totality on truncated input: inside a loop driven by a declared length, a failed read ends the loop. A loop that
     # records the failure and goes on performs `length` iterations (each allocating an error) on an input that only holds
     # the length prefix.
